@@ -205,7 +205,9 @@ impl Cursor<'_> {
                             e,
                         ))
                     }
-                    _ => return Ok(self.ident()?),
+                    // Not a number: lex the whole token, prefix included, as an identifier.
+                    // (The last consumed character may be multi-byte, so `ident` cannot be used.)
+                    _ => return Ok(self.ident_from(start - prefix)?),
                 },
             },
         };
@@ -277,8 +279,13 @@ impl Cursor<'_> {
         }
     }
 
+    /// Lex an identifier whose first (single-byte) character has just been consumed
     fn ident(&mut self) -> Result<TokenKind> {
-        let ident_start = self.abs_pos() - 1;
+        self.ident_from(self.abs_pos() - 1)
+    }
+
+    /// Lex an identifier which starts at byte offset `ident_start` of the source
+    fn ident_from(&mut self, ident_start: usize) -> Result<TokenKind> {
         self.take_while(is_id);
         let ident = self
             .get_range(ident_start..self.abs_pos())
